@@ -210,6 +210,48 @@ pub fn run(ctx: &mut Ctx) {
                     }
                 }
             }
+            // receiver that already has tags enabled when it loads a buffer serialized under a
+            // different tag set; nothing is called on it afterwards
+            {
+                let ser_tags: Vec<&str> = TAGS.iter().filter(|_| r.chance(1, 2)).cloned().collect();
+                let recv_tags: Vec<&str> = TAGS.iter().filter(|_| r.chance(1, 2)).cloned().collect();
+                e.use_tags(&ser_tags);
+                let buf = e.serialize_raw().expect("serialize");
+                let mut recv = Engine::new(r.chance(1, 2));
+                recv.use_resources(scriptlet_resources().iter().map(|r| r.to_resource()));
+                recv.use_tags(&recv_tags);
+                recv.deserialize(&buf).expect("deserialize own buffer");
+                e.use_tags(&recv_tags);
+                twin_no_rp.use_tags(&recv_tags);
+                for q in &reqs {
+                    let rq = match Request::new(&q.url, &q.source, q.rtype) {
+                        Ok(rq) => rq,
+                        Err(_) => continue,
+                    };
+                    let x: Answer = ask(&e, &rq);
+                    let y: Answer = ask(&recv, &rq);
+                    evals += 1;
+                    if !x.same_verdict(&y) {
+                        let t = ask(&twin_no_rp, &rq);
+                        let only_rewrite = x.matched == y.matched && x.important == y.important && x.exception == y.exception && x.redirect == y.redirect && x.csp == y.csp;
+                        let sig = if only_rewrite && y.same_verdict(&t) && y.rewritten.is_none() {
+                            "C08:removeparam-rules-not-serialized".to_string()
+                        } else {
+                            "C08:receiver-with-own-tags-answers-differently".to_string()
+                        };
+                        viol.push((
+                            sig,
+                            json!({"rules": lines, "tags_when_serialized": ser_tags, "tags_enabled_on_receiver_before_load": recv_tags, "url": q.url, "source": q.source, "type": q.rtype,
+                                "original_under_receiver_tags": x.to_json(), "receiver": y.to_json()}),
+                        ));
+                    }
+                }
+                for t in TAGS {
+                    if recv.tag_exists(t) != recv_tags.contains(t) {
+                        viol.push(("C08:receiver-tag-set-changed-by-load".to_string(), json!({"rules": lines, "tag": t})));
+                    }
+                }
+            }
             for _ in 0..5 {
                 let page = format!("https://{}/p", r.pick(PAGES).0);
                 let x = cos(&e, &page);
